@@ -1058,9 +1058,20 @@ pub fn gen_program(rng: &mut Rng, allow_else_resume: bool) -> (Program, Vec<&'st
             _ => gen_leaf_inline(rng, &fns, has_data, fail),
         };
         // multi-statement lines
+        let then_gosub = matches!(&stmt, S::If(_, Then::Stmt(s), _) if matches!(**s, S::Gosub(_)));
         if rng.chance(1, 4) && !matches!(stmt, S::If(..) | S::Goto(_)) {
             feats.push("multi");
             let second = gen_leaf(rng, &fns, has_data, false);
+            lines.push(vec![stmt, second]);
+        } else if rng.chance(1, 3) && matches!(stmt, S::If(..)) && !then_gosub && !stext(&stmt).contains("REM") && !stext(&stmt).contains("DATA") {
+            // statements after an IF on the same line: a false IF without ELSE skips them all - including a later
+            // IF ... ELSE, whose ELSE does not belong to the first IF; an IF that ran its ELSE clause goes on with them
+            feats.push("if-then-more");
+            let second = if rng.chance(1, 2) {
+                S::If(gen_num(rng, 1, &fns), Then::Stmt(Box::new(gen_leaf_inline(rng, &fns, has_data, false))), Some(Then::Stmt(Box::new(gen_leaf(rng, &fns, has_data, false)))))
+            } else {
+                gen_leaf(rng, &fns, has_data, false)
+            };
             lines.push(vec![stmt, second]);
         } else {
             lines.push(vec![stmt]);
